@@ -147,6 +147,10 @@ Definition s_c08 (p q : state) (blk : block) (sender : N) (o : op) (ok : bool) :
       let base := match a with Some x => if is_expired (a_exp x) blk then None else Some x | None => None end in
       let ds := d :: denoms_of a ++ denoms_of (stored q s) in
       if negb (unchanged_except s) then 7
+      else if match e with
+              | Some x => is_expired x blk
+              | None => is_expired (exp_of a) blk
+              end then 15   (* accepted with an expiry already past (requested one, else that of the previous grant) *)
       else if negb (forallb (fun d' => amount_of (stored q s) d' =? amount_of base d' + (if d' =? d then n else 0)) ds) then 8
       else if negb (exp_eqb (exp_of (stored q s)) (match e with Some x => x | None => exp_of base end)) then 12
            (* expiry after an increase: the requested one, else that of the unexpired previous grant, else Never *)
@@ -155,6 +159,9 @@ Definition s_c08 (p q : state) (blk : block) (sender : N) (o : op) (ok : bool) :
       let a := stored p s in
       let ds := d :: denoms_of a ++ denoms_of (stored q s) in
       if negb (unchanged_except s) then 9
+      else if negb (match a with Some x => negb (is_expired (a_exp x) blk) | None => false end) then 14
+           (* DecreaseAllowance accepted on a missing or expired allowance *)
+      else if match e with Some x => is_expired x blk | None => false end then 15
       else if negb (forallb (fun d' => amount_of (stored q s) d' =? amount_of a d' - (if d' =? d then n else 0)) ds) then 10
       else if match stored q s with
               | Some x => negb (exp_eqb (a_exp x) (match e with Some y => y | None => exp_of a end))
@@ -199,11 +206,14 @@ Definition corr (prop : N) (st : state) (o : obs) (blk : block) : bool :=
   | _ => true
   end.
 
-Definition contract (prop : N) (sk : bool) (pre post : obs) (blk : block) (sender : N) (o : op)
+(* mst: the state the history of accepted calls implies (the model's), against which authorisation is
+   judged for C07: who is an admin and what each grant still covers is a fact of the history, not of
+   what the contract happens to have stored *)
+Definition contract (prop : N) (mst : state) (sk : bool) (pre post : obs) (blk : block) (sender : N) (o : op)
            (pred : option bool) (hok ok : bool) (relayed : list cmsg) (exact : bool) : N :=
   let p := state_of_obs sk pre in let q := state_of_obs sk post in
   match prop with
-  | 7 => s_c07 p blk sender o hok relayed exact
+  | 7 => s_c07 mst blk sender o hok relayed exact
   | 8 => s_c08 p q blk sender o ok
   | 16 => s_c16 pred hok
   | 17 => s_c17 p q blk sender o ok
@@ -216,7 +226,7 @@ Fixpoint check_steps (prop : N) (i : N) (st : state) (prev : obs) (l : list tste
   match l with
   | [] => []
   | TCall blk sender o pred hok ok relayed exact after :: r =>
-      let c := contract prop (subkeys st) prev after blk sender o pred hok ok relayed exact in
+      let c := contract prop st (subkeys st) prev after blk sender o pred hok ok relayed exact in
       if negb (c =? 0) then [(i, 100 + c)] else
       let pred_m := match o with Execute [m] => Some (can_execute st blk sender m) | _ => None end in
       if (prop =? 16) && match pred with Some b => negb (opt_eqb Bool.eqb pred_m (Some b)) | None => false end
